@@ -297,8 +297,9 @@ Section Oracles.
     | TLabelTable => Ok (set_depth (set_lata s (Some [])) (S (s_depth s)))
     | TLabel =>
       match a with
-      | ALabel k c => Ok (set_write_to (set_label s (Some (mkLabel k c None))) (Some WLabel))
-      | _ => Ok (set_write_to (set_label s (Some (mkLabel 0 [None; None; None; None] None))) (Some WLabel))
+      (* self.label.label = '' (fix 616e06f9): a Label element without text has the empty text *)
+      | ALabel k c => Ok (set_write_to (set_label s (Some (mkLabel k c (Some [])))) (Some WLabel))
+      | _ => Ok (set_write_to (set_label s (Some (mkLabel 0 [None; None; None; None] (Some [])))) (Some WLabel))
       end
     | TDataArray =>
       if negb (s_img s) then Err EState
